@@ -679,6 +679,13 @@ func (s *scen) exec(st *Step) {
 	case "model":
 		// the code-shaped model's prediction for the state just observed (spec -> code conformance; judged by the trace spec)
 		s.emit(J{"k": "model", "w": st.W, "wl": st.Model.WL, "nmarks": st.Model.NMarks, "nwd": st.Model.NWd, "npath": st.Model.NPath})
+	case "evmodel":
+		// the event model's prediction of everything received so far (spec -> code conformance; judged by the trace spec)
+		want := []J{}
+		for _, e := range st.Want {
+			want = append(want, J{"name": orEmpty(e.Name), "op": e.Op, "from": orEmpty(e.From)})
+		}
+		s.emit(J{"k": "evmodel", "w": st.W, "want": want})
 	case "chdir":
 		// the working directory of the scenario (relative Add arguments are relative to it)
 		// (leaving a removed directory releases its inode: the kernel reports DELETE_SELF only now)
